@@ -129,6 +129,19 @@ def _replace_stmts(scope, old: List[ast.stmt], new: List[ast.stmt]) -> int:
 def apply_mutant(src: str, m: M) -> str:
     tree = ast.parse(src)
     scope = _find_scope(tree, m.func)
+    if m.old == "<remove-keyword>":
+        # new = "<module-level name>:<keyword>": drop one keyword from `name = dict(k=v, ...)`
+        target, kw = m.new.split(":")
+        hit = 0
+        for n in ast.walk(scope):
+            if isinstance(n, ast.Assign) and any(isinstance(t, ast.Name) and t.id == target for t in n.targets) \
+                    and isinstance(n.value, ast.Call):
+                before = len(n.value.keywords)
+                n.value.keywords = [k for k in n.value.keywords if k.arg != kw]
+                hit += before - len(n.value.keywords)
+        if hit != 1:
+            raise StaleMutant(f"keyword {kw} of {target} not found")
+        return ast.unparse(tree)
     if m.old == "<rename-param>":
         a, b = m.new.split("->")
         hit = 0
